@@ -87,6 +87,14 @@ def tasks(tier, seed):
                 for pat in (("0", "to") if to is not None else ("none",)):
                     ts.append({"kind": "responsive", "iv": iv, "to": to, "pat": pat, "payload": payload, "traffic": traffic, "bound": 2, "prior": "reconnected",
                                "name": "reconnected/responsive/%s/%s/%s/%s/%s" % (iv, to, pat, traffic, payload)})
+    # payload forms: non-ASCII text inside and outside Latin-1, bytes that are not UTF-8, the longest payload a control frame can carry
+    for payload in ("\u00e9", "\u5fc3\u8df3 \u2713", "hex:ff00fe6b", "p" * 125, "\u00e9" * 62):
+        for iv, to in ((2, 1), (2, None)):
+            if to is not None:
+                ts.append({"kind": "silent", "iv": iv, "to": to, "j": 1, "payload": payload, "traffic": "none", "bound": 2,
+                           "name": "payload/silent/%s/%s/j1/%s" % (iv, to, payload[:12].encode("unicode_escape").decode())})
+            ts.append({"kind": "responsive", "iv": iv, "to": to, "pat": "0" if to is not None else "none", "payload": payload, "traffic": "chatty", "bound": 2,
+                       "name": "payload/responsive/%s/%s/%s" % (iv, to, payload[:12].encode("unicode_escape").decode())})
     # a process-wide default socket timeout (setdefaulttimeout) much larger / smaller than the ping timeout must not change the keepalive
     for iv, to in ((2, 1), (2.5, 2)):
         for dt in (30, 0.5):
@@ -172,7 +180,7 @@ class Harness:
         kind = d["kind"]
         run_kwargs = {"ping_interval": iv, "ping_timeout": to}
         if d.get("payload") is not None:
-            run_kwargs["ping_payload"] = d["payload"]
+            run_kwargs["ping_payload"] = _payload(d["payload"])
         end_at = None
         if kind in ("invalid", "nopings"):
             script = [(3.0, "data", R.encode(R.CLOSE, b"\x03\xe8"))]
@@ -273,7 +281,8 @@ class Harness:
             if errs:
                 raise V("false-timeout", "no pings are sent but an error was reported: %r" % (errs[0],))
             return
-        want_payload = (d.get("payload") or "").encode()
+        want_payload = _payload(d.get("payload") or "")
+        want_payload = want_payload.encode("utf-8") if isinstance(want_payload, str) else want_payload
         for t, f in pings:
             if f.payload != want_payload:
                 raise V("ping-payload", "ping at t=%.2f carries %r, configured payload %r" % (t, f.payload, want_payload))
@@ -322,6 +331,11 @@ class Harness:
             n_expected = int((end_at - 2 * iv) // iv) + 1 - (1 if d.get("send_fault") else 0)
             if len(times) < n_expected:
                 raise V("pings-stopped", "only %d pings in a run of %.2f (expected >= %d)" % (len(times), end_at, n_expected))
+
+
+def _payload(p):
+    """the configured ping payload of a task: a str (sent as its UTF-8 encoding), or bytes written as 'hex:...'"""
+    return bytes.fromhex(p[4:]) if p.startswith("hex:") else p
 
 
 def _ratio(iv, to):
